@@ -196,7 +196,7 @@ func runTamper(s *summary, k *h.Keys, root *h.Rng, n int, thorough bool, addCase
 			}
 		}
 		ms = sample(r, ms, n)
-		ms = append(ms, h.MultiSite(r, base, n/3+4)...)
+		ms = append(ms, h.MultiSite(r, base, min(n/3+4, 600))...)
 		for _, m := range always {
 			desc := fmt.Sprintf("base %d {%s}; %s", bi, spec.String(), m.What)
 			for _, nv := range narrowings(vo, base) {
@@ -207,6 +207,7 @@ func runTamper(s *summary, k *h.Keys, root *h.Rng, n int, thorough bool, addCase
 			}
 		}
 		ms = append(ms, always...)
+		ms = append(ms, h.ContentFlips(base)...)
 		for mi, m := range ms {
 			desc := fmt.Sprintf("base %d {%s}; %s", bi, spec.String(), m.What)
 			c := addCase(m.Img, base, vo, desc)
